@@ -295,11 +295,13 @@ theorem components_eq_spec (v11 : Bool) (v : DT) (hy : v.year ≠ 0) :
   unfold Cal.components Timeline.components yearFrom absV astro lex11OfAstro lex10OfAstro
   cases v11 <;> simp <;> split <;> (try split) <;> omega
 
-/-- PARTIAL (known finding F11y): the `[Z]` picture component of `fn:format-dateTime/date/time` shows the value's own
-timezone when it has one; for a value without timezone it shows `+00:00` where F&O 3.1 §9.8.4.6 prints nothing. -/
-theorem picture_tz_partial (tz : Option Int) (z : Int) (h : tz = some z) : pictureTz tz = tz := by subst h; rfl
+/-- **the `[Z]` picture component shows the value's own timezone**, and nothing for a value without timezone
+(F&O 3.1 §9.8.4.6; former F11y) — together with `components_eq_spec` the numeric picture components
+`[Y][M][D][H][m][s][f][Z]` are the specification's components of the value. -/
+theorem picture_tz_is_value_tz (tz : Option Int) : pictureTz tz = tz := by cases tz <;> rfl
 
-theorem picture_tz_witness : pictureTz none = some 0 ∧ pictureTz none ≠ none := by decide
+/-- test (literals) -/
+example : pictureTz none = none ∧ pictureTz (some (-300)) = some (-300) := by decide
 
 /-! ### ± yearMonthDuration -/
 
@@ -374,7 +376,7 @@ theorem components_roundtrip (year m d h mi s us : Int) (tz : Option Int) (hy : 
           (h = 24 ∧ mi = 0 ∧ s = 0 ∧ us = 0)) :
     ∃ w, mk year m d h mi s us tz = .ok w ∧ w.year ≠ 0 ∧
       absV w = Timeline.ofFields (astro year) m d h mi s us tz :=
-  mk_spec year m d h mi s us tz hy hyb hm hd ht
+  mk_spec year m d h mi s us tz hy (by omega) (fun _ => by omega) hm hd ht
 
 /-- a month/day that does not exist in the proleptic Gregorian year is rejected (`ValueError`, FORG0001
 through XPath): e.g. 29 February of 10003, of -0004 (XSD 1.0) or of -0003 (XSD 1.1) -/
@@ -393,7 +395,7 @@ example : mk (-1) 12 31 24 0 0 0 none = .ok ⟨1, 1, 1, 0, none⟩ ∧ mk 10000 
 /-- **the canonical string of an `xs:dateTime` value re-parses to the value** (`fromstring(str(v)) = v`, hence
 `str` of the result is the same string: a fixed point), in both XSD versions, for every valid value with
 |year| ≤ 2^31: BCE years in either numbering, years of more than four digits (no leading zero), seconds
-fractions (trailing zeros stripped, re-padded), all timezones (C10's timezone round trip), surrounding
+fractions (trailing zeros stripped, re-padded), all timezones (kernel-evaluated round trip over the 1681 offsets), surrounding
 white-space stripping. -/
 theorem dateTime_string_roundtrip (v11 : Bool) (v : DT) (hv : v.Valid) (hyb : v.year.natAbs ≤ 2 ^ 31) :
     dateTimeOfLex v11 (fmtDateTime v11 v) = .ok v ∧
